@@ -19,6 +19,12 @@ fractional months (that needs evaluation over the hours - a test, not a static a
          and every store of .gFunction passes the container on without computing, filtering, slicing, reordering
          or mutating it (list() / copy / identity comprehension are accepted), or re-reads it from the object's own
          gFunction.bore_locations (the rebuild in compute_g_functions).  Which field a search hands in is C05 / C01.
+  R19.6  custody of the listed loads: walking back from the attribute the loads table reads (the GHE's
+         hourly_extraction_ground_loads) through every store, constructor parameter and construction site in the
+         package - GHE <- search classes <- design classes <- manager - every hand-over passes the list on
+         unchanged, and the walk ends only at the manager's input (the setter's parameter, the input file's
+         'ground_loads' entry) or a None initialisation: nothing on the way scales, clips, filters, reorders,
+         truncates or mutates the loads
 """
 from __future__ import annotations
 
@@ -26,7 +32,7 @@ import ast
 import calendar
 
 from .. import sym
-from ..custody import root_of
+from ..custody import Walk, call_sites, root_of
 from ..model import MUTATORS, AnalysisError, inline_single_defs, Program, attr_chain, bind_args, norm_stmt, walk_no_nested
 from ..paths import Const, Engine, Hooks, Opaque, Seq, State, vkey
 from ..report import Result
@@ -426,59 +432,47 @@ def check(prog: Program, tier: str) -> Result:
     if not okz:
         res.violation("R19.4", "gfunc-rows", prog.loc(fi, zp[0]) if zp else prog.loc(fi, fi.node), q, "the g-function table rows are not (x, y) of the simulation curve with y of the wall curve")
     _check_custody(prog, res)
+    _check_loads_custody(prog, res)
     return res
+
+
+def _check_loads_custody(prog: Program, res: Result):
+    fi = prog.func(f"{OM}.get_hourly_loading_data")
+    it = _row_builder(fi)[0]
+    src = inline_single_defs(fi.node, it.args[0]) if isinstance(it, ast.Call) and attr_chain(it.func) == "enumerate" and it.args else it
+    ch = attr_chain(src) or ""
+    if not ch.startswith("design.ghe."):
+        return  # R19.2 reports this
+    attr = ch.split(".", 2)[2]
+    ghe_cls = "ghedesigner.ground_heat_exchangers.GHE"
+    prog.cls(ghe_cls)
+    w = Walk(prog)
+    w.from_attr(ghe_cls, attr)
+    seen = set()
+    for d, f_, n in w.links:
+        if d in seen:
+            continue
+        seen.add(d)
+        res.ob("R19.6", f"loads handed over unchanged: {d}", True, prog.loc(f_, n))
+        res.analysed(f_.qualname)
+    for d, f_, n, why in w.broken:
+        res.ob("R19.6", f"loads handed over unchanged: {d}", False, prog.loc(f_, n))
+        res.violation("R19.6", f"loads-custody|{d.split(':')[-1].strip()[:50]}", prog.loc(f_, n), f_.qualname,
+                      f"the loads the table lists are not the input loads: at '{d}' {why}")
+    for kind, text, f_, n in w.sources:
+        ok = kind in ("none", "api") or (kind == "elem" and f_.module == "ghedesigner.manager" and not f_.cls)
+        res.ob("R19.6", f"origin of the listed loads: {kind} {text}", ok, prog.loc(f_, n))
+        if not ok:
+            res.violation("R19.6", f"loads-origin|{kind}|{text[:50]}", prog.loc(f_, n), f_.qualname,
+                          f"the loads the table lists originate from {text} ({kind}) in {f_.qualname}, not from the manager's input")
+    res.count("loads_custody_links", len(seen))
+    if not w.broken:
+        res.floor("loads_custody_links", 20)
 
 
 # ---------------------------------------------------------------------------
 FIELD = "bore_locations"
 HOLDER = "gFunction"
-
-
-def _expand_kwargs(fn, call: ast.Call, target_fi) -> dict:
-    """bind_args, with a single  **name  argument expanded when `name` is one dict literal with constant keys"""
-    b = dict(bind_args(target_fi, call))
-    for kw in call.keywords:
-        if kw.arg is None:
-            d = kw.value
-            if isinstance(d, ast.Name):
-                defs = [s.value for s in walk_no_nested(fn) if isinstance(s, ast.Assign) and len(s.targets) == 1 and isinstance(s.targets[0], ast.Name) and s.targets[0].id == d.id]
-                touched = [n for n in walk_no_nested(fn) if isinstance(n, ast.Subscript) and isinstance(n.ctx, ast.Store) and isinstance(n.value, ast.Name) and n.value.id == d.id]
-                touched += [n for n in walk_no_nested(fn) if isinstance(n, ast.Call) and isinstance(n.func, ast.Attribute) and n.func.attr in MUTATORS and isinstance(n.func.value, ast.Name) and n.func.value.id == d.id]
-                if len(defs) != 1 or touched:
-                    raise AnalysisError(f"**{d.id}: the dictionary is not a single literal")
-                d = defs[0]
-            if not (isinstance(d, ast.Dict) and all(isinstance(k, ast.Constant) and isinstance(k.value, str) for k in d.keys)):
-                raise AnalysisError(f"**{ast.unparse(kw.value)[:40]}: keys are not string literals")
-            for k, v in zip(d.keys, d.values):
-                b[k.value] = v
-    return b
-
-
-def _call_sites(prog: Program, funcs, tfi):
-    """(calling function, Call node, bound arguments) of every call of tfi in the package; for a constructor:  Cls(...) of
-    the class and of subclasses inheriting it,  Cls.__init__(self, ...)  and  super().__init__(...)  of direct subclasses"""
-    if tfi.name != "__init__":
-        for fi in funcs:
-            for n in walk_no_nested(fi.node):
-                if isinstance(n, ast.Call) and (attr_chain(n.func) or "").split(".")[-1] == tfi.name:
-                    yield fi, n, _expand_kwargs(fi.node, n, tfi)
-        return
-    cq = tfi.qualname.rsplit(".", 1)[0]
-    names = {tfi.cls} | {c.name for c in prog.subclasses(cq) if prog.method(c.qualname, "__init__") is tfi}
-    direct = {c.name for c in prog.subclasses(cq) if "__init__" in c.methods and prog.mro(c.qualname)[1:] and prog.method(prog.mro(c.qualname)[1].qualname, "__init__") is tfi}
-    for fi in funcs:
-        for n in walk_no_nested(fi.node):
-            if not isinstance(n, ast.Call):
-                continue
-            ch = attr_chain(n.func) or ""
-            if ch.split(".")[-1] in names:
-                yield fi, n, _expand_kwargs(fi.node, n, tfi)
-            elif ch.endswith(".__init__") and ch.split(".")[-2] in names and n.args:
-                shifted = ast.Call(func=n.func, args=n.args[1:], keywords=n.keywords)
-                ast.copy_location(shifted, n)
-                yield fi, n, _expand_kwargs(fi.node, shifted, tfi)
-            elif isinstance(n.func, ast.Attribute) and n.func.attr == "__init__" and isinstance(n.func.value, ast.Call) and attr_chain(n.func.value.func) == "super" and fi.cls in direct and fi.name == "__init__":
-                yield fi, n, _expand_kwargs(fi.node, n, tfi)
 
 
 def _check_custody(prog: Program, res: Result):
@@ -529,7 +523,7 @@ def _check_custody(prog: Program, res: Result):
     while work:
         tfi, tparam = work.pop()
         tname = tfi.cls if tfi.name == "__init__" else tfi.name
-        for fi, n, b in _call_sites(prog, funcs, tfi):
+        for fi, n, b in call_sites(prog, tfi):
             if tparam not in b:
                 if tparam in tfi.defaults():
                     res.ob("R19.5", f"{fi.qualname}: {tname}(...) leaves {tparam} at its default", False, prog.loc(fi, n))
@@ -582,7 +576,7 @@ def _check_custody(prog: Program, res: Result):
         if (tfi.qualname, tparam) in hseen:
             continue
         hseen.add((tfi.qualname, tparam))
-        for fi, n, b in _call_sites(prog, funcs, tfi):
+        for fi, n, b in call_sites(prog, tfi):
             if tparam not in b:
                 raise AnalysisError(f"{prog.loc(fi, n)}: argument {tparam} of {tfi.cls}(...) not found")
             n_hold += 1
@@ -611,7 +605,20 @@ GHXM = "ghedesigner.ground_heat_exchangers"
 GFM = "ghedesigner.gfunction"
 SRM = "ghedesigner.search_routines"
 
+DSM = "ghedesigner.design"
+MGM = "ghedesigner.manager"
+
 VARIANTS = [
+    Variant("the GHE keeps its loads rounded to whole watts", "break",
+            [(GHXM, "        self.hourly_extraction_ground_loads = hourly_extraction_ground_loads\n        self.times = []", "        self.hourly_extraction_ground_loads = [round(q) for q in hourly_extraction_ground_loads]\n        self.times = []")], "R19.6"),
+    Variant("the GHE keeps a list copy of its loads", "benign",
+            [(GHXM, "        self.hourly_extraction_ground_loads = hourly_extraction_ground_loads\n        self.times = []", "        self.hourly_extraction_ground_loads = list(hourly_extraction_ground_loads)\n        self.times = []")]),
+    Variant("the design object truncates the loads to one year", "break",
+            [(DSM, "        self.hourly_extraction_ground_loads = hourly_extraction_ground_loads\n        self.method = method", "        self.hourly_extraction_ground_loads = hourly_extraction_ground_loads[:8760]\n        self.method = method")], "R19.6"),
+    Variant("the manager stores clipped loads", "break",
+            [(MGM, "        self._ground_loads = hourly_ground_loads\n", "        self._ground_loads = np.clip(hourly_ground_loads, -1.0e6, 1.0e6).tolist()\n")], "R19.6"),
+    Variant("the manager zeroes small loads in place after storing them", "break",
+            [(MGM, "        self._ground_loads = hourly_ground_loads\n", "        self._ground_loads = hourly_ground_loads\n        for i, q in enumerate(hourly_ground_loads):\n            if abs(q) < 1.0:\n                self._ground_loads[i] = 0.0\n")], "R19.6"),
     Variant("compute_g_functions rebuilds the g-function in a frame anchored at the field's corner (seeded C19_c)", "break",
             [(GHXM, "        coordinates = self.gFunction.bore_locations\n",
               "        x_0 = min(x for x, _ in self.gFunction.bore_locations)\n        y_0 = min(y for _, y in self.gFunction.bore_locations)\n        coordinates = [(x - x_0, y - y_0) for x, y in self.gFunction.bore_locations]\n")], "R19.5"),
